@@ -39,10 +39,10 @@ type outMethod struct {
 }
 
 type outEffect struct {
-	Name    string `json:"name"`
-	Writes  []int  `json:"writes"`
-	Aliases []int  `json:"aliases"`
-	SelfAssignOnly bool `json:"selfAssignOnly,omitempty"`
+	Name           string `json:"name"`
+	Writes         []int  `json:"writes"`
+	Aliases        []int  `json:"aliases"`
+	SelfAssignOnly bool   `json:"selfAssignOnly,omitempty"`
 }
 
 func load(dir string, pats ...string) []*packages.Package {
@@ -659,8 +659,10 @@ func main() {
 	writeLockTable(filepath.Join(outDir, "LockTable.lean"), tab)
 	writeEffects(filepath.Join(outDir, "Effects.lean"), effs)
 	writeConsts(filepath.Join(outDir, "Consts.lean"), cs)
+	funcsLean, fragStatus := translateFrag()
+	writeIfChanged(filepath.Join(outDir, "Funcs.lean"), funcsLean)
 	if len(os.Args) > 3 {
-		b, _ := json.MarshalIndent(map[string]any{"lockTable": tab, "effects": effs, "consts": cs}, "", " ")
+		b, _ := json.MarshalIndent(map[string]any{"lockTable": tab, "effects": effs, "consts": cs, "regeneratedFunctions": fragStatus}, "", " ")
 		writeIfChanged(os.Args[3], string(b)+"\n")
 	}
 }
